@@ -187,7 +187,8 @@ def _set_config(ctx, prog):
                f"— unknown parameters can be added", key="C18.1:membership",
                # (a key handed out by a generator / helper that is not
                # read may have been tested there)
-               evidence=not any(x.op == "unknown" or "generator" in fmt(x)[:40]
+               evidence=not any(x.op in ("unknown", "loopout", "loopvar") or
+                                "generator" in fmt(x)[:40]
                                 for x in k.walk()))
     # a parameter named without value tokens: booleans toggle, others stay
     tog = [e for e in stores if not any(
@@ -1649,7 +1650,9 @@ def _generate_numbers(ctx, prog, g, r):
                "generate turns every numeric token into a float: an "
                "int-typed option (--downsample, --n_to_align) then gets "
                "500.0 from the config but 500 from the command line",
-               key="C18.7:int-tokens", value=fmt(v))
+               key="C18.7:int-tokens", value=fmt(v),
+               # evident when the float conversion is seen (and no int one)
+               evidence=has_float)
     elif lexical:
         ctx.ob("C18.7", apps[0], False,
                f"generate decides int vs float with a lexical test "
